@@ -24,21 +24,27 @@ def run(tier, rng, C):
         tw.__dict__.update(copy.deepcopy(inv.__dict__))
         miss = rng.choice(['zz.missing', 'nope', 'd1.gone'])
         holders = sorted(tw.classes) + [node]
-        h = rng.choice(holders)
-        files = tw.nodes if h == node else tw.classes
-        d = files[h]
-        es = []
-        for k, v in d[1]:
-            if k == ('s', 'classes'):
-                l = list(v[1])
-                l.insert(rng.randint(0, len(l)), S(miss))
-                v = ('l', l)
-            es.append((k, v))
-        files[h] = ('m', es)
+        hs = rng.sample(holders, min(len(holders), rng.choice([1, 1, 2, 3])))   # the same missing class from several places
+        if rng.random() < 0.4 and node not in hs:
+            hs.append(node)
+        h = hs[0]
+        for hh in hs:
+            files = tw.nodes if hh == node else tw.classes
+            d = files[hh]
+            es = []
+            for k, v in d[1]:
+                if k == ('s', 'classes'):
+                    l = list(v[1])
+                    l.insert(rng.randint(0, len(l)), S(miss))
+                    if rng.random() < 0.2:
+                        l.insert(rng.randint(0, len(l)), S(miss))
+                    v = ('l', l)
+                es.append((k, v))
+            files[hh] = ('m', es)
         b = C.case_id('m', i)
         cases.append({'id': b, 'line': G.inv_line(b, tw, G.op_node(nname)), 'show': G.show_inv(tw, 'node ' + nname),
                       'nontrivial': True, 'role': 'missing', 'twin': a, 'miss': miss, 'ignored': tw.ignore and miss in tw.matches(),
-                      'holder_is_node': h == node})
+                      'holder_is_node': node in hs})
         # baseline under the plain configuration: existing classes are never skipped
         pl = G.Inv()
         pl.__dict__.update(copy.deepcopy(inv.__dict__))
